@@ -144,7 +144,7 @@ def replay(ctx, path):
     print("implementation:", json.dumps(impl))
     if coq_case:
         rc, out = wc.eval_single(ctx, "C09_replay", coq_case, [
-            ("model", "model_obs (cfg_of_case w) (w_roots w)"),
+            ("model", "model_obs_d (cfg_of_case w) (w_dets w) (w_roots w)"),
             ("model_eq_impl", "case_model_ok w"),
             ("in_D", "c09_domain w"), ("spec_on_obs", "c09_spec_on_obs w"), ("spec_ok", "case_spec_ok_C09 w")])
         print(out)
